@@ -71,7 +71,13 @@ fn err<T>(s: impl Into<String>) -> Result<T, String> {
 }
 
 fn hex_felt(s: &str) -> Result<Felt, String> {
-    Felt::from_hex(s.trim()).map_err(|e| format!("bad hex {s}: {e:?}"))
+    // validate here: the field library's own parser panics on some malformed strings
+    let t = s.trim();
+    let digits = t.strip_prefix("0x").ok_or_else(|| format!("inconsistent: value without 0x prefix: {s}"))?;
+    if digits.is_empty() || digits.len() > 64 || !digits.bytes().all(|b| b.is_ascii_hexdigit()) {
+        return Err(format!("bad hex {s}"));
+    }
+    Felt::from_hex(t).map_err(|e| format!("bad hex {s}: {e:?}"))
 }
 
 fn u64_of(v: &Value, what: &str) -> Result<u64, String> {
@@ -107,8 +113,12 @@ fn parse_pv(line: &str) -> Option<PvLine<'_>> {
     let close = s.find("]: ")?;
     let (range, tail) = (&s[..close], &s[close + 3..]);
     let mut it = range.split(':');
-    let a: usize = it.next()?.parse().ok()?;
-    let b: usize = it.next()?.parse().ok()?;
+    let (ta, tb) = (it.next()?, it.next()?);
+    if !canonical_number(ta) || !canonical_number(tb) {
+        return None;
+    }
+    let a: usize = ta.parse().ok()?;
+    let b: usize = tb.parse().ok()?;
     if it.next().is_some() {
         return None;
     }
@@ -117,10 +127,17 @@ fn parse_pv(line: &str) -> Option<PvLine<'_>> {
     Some(PvLine { a, b, topic: &tail[..k], rest: &tail[k + 2..] })
 }
 
+fn canonical_number(t: &str) -> bool {
+    !t.is_empty() && t.bytes().all(|b| b.is_ascii_digit()) && (t.len() == 1 || !t.starts_with('0'))
+}
+
 fn parse_number_after<'a>(s: &'a str, key: &str) -> Option<u64> {
     let i = s.find(key)? + key.len();
     let t = &s[i..];
     let end = t.find(|c: char| !c.is_ascii_digit()).unwrap_or(t.len());
+    if !canonical_number(&t[..end]) {
+        return None;
+    }
     t[..end].parse().ok()
 }
 
@@ -349,19 +366,28 @@ pub fn load_value_mode(doc: &Value, name: &str, mode: Mode) -> Result<Loaded, St
     for line in annotations {
         let line = line.as_str().ok_or("annotation is not a string")?;
         if let Some(v) = line.strip_prefix("V->P: /cpu air/") {
+            // the prover's log of the verifier's challenges is not part of the proof: a damaged
+            // line is skipped (it then simply fails the comparisons that use it)
             let payload = paren_payload(v);
+            let f = payload.and_then(|p| hex_felt(p).ok());
             if v.starts_with("STARK/Interaction: Interaction element #") {
-                ch.interaction_elements.push(hex_felt(payload.ok_or("no payload")?)?);
+                if let Some(x) = f {
+                    ch.interaction_elements.push(x);
+                }
             } else if v.starts_with("STARK/Original: Constraint polynomial random element") {
-                ch.constraint_alpha = Some(hex_felt(payload.ok_or("no payload")?)?);
+                ch.constraint_alpha = f;
             } else if v.starts_with("STARK/Out Of Domain Sampling/OODS values: Evaluation point") {
-                ch.oods_point = Some(hex_felt(payload.ok_or("no payload")?)?);
+                ch.oods_point = f;
             } else if v.starts_with("STARK/Out Of Domain Sampling: Constraint polynomial random element") {
-                ch.oods_alpha = Some(hex_felt(payload.ok_or("no payload")?)?);
+                ch.oods_alpha = f;
             } else if v.starts_with("STARK/FRI/Commitment/Layer ") && v.contains("Evaluation point") {
-                ch.fri_eval_points.push(hex_felt(payload.ok_or("no payload")?)?);
+                if let Some(x) = f {
+                    ch.fri_eval_points.push(x);
+                }
             } else if v.starts_with("STARK/FRI/QueryIndices") {
-                ch.query_indices.push(payload.ok_or("no payload")?.trim().parse().map_err(|_| "bad query index")?);
+                if let Some(q) = payload.and_then(|p| p.trim().parse().ok()) {
+                    ch.query_indices.push(q);
+                }
             }
             continue;
         }
@@ -377,11 +403,11 @@ pub fn load_value_mode(doc: &Value, name: &str, mode: Mode) -> Result<Loaded, St
             let r = pv.rest;
             let num_then = |s: &str, after: &str| -> bool {
                 let end = s.find(|c: char| !c.is_ascii_digit()).unwrap_or(s.len());
-                end > 0 && s[end..].starts_with(after)
+                canonical_number(&s[..end]) && s[end..].starts_with(after)
             };
             let row_ok = r.strip_prefix("Row ").map(|x| {
                 let end = x.find(|c: char| !c.is_ascii_digit()).unwrap_or(x.len());
-                end > 0 && x[end..].strip_prefix(", Column ").map(|y| num_then(y, ": Field Element(0x")).unwrap_or(false)
+                canonical_number(&x[..end]) && x[end..].strip_prefix(", Column ").map(|y| num_then(y, ": Field Element(0x")).unwrap_or(false)
             }).unwrap_or(false);
             let node_ok = r.strip_prefix("For node ").map(|x| num_then(x, ": Hash(0x") || num_then(x, ": Data(0x")).unwrap_or(false);
             let pkg_ok = r.strip_prefix("To complete packages, element #").map(|x| num_then(x, ": Data(0x") || num_then(x, ": Hash(0x")).unwrap_or(false);
@@ -463,6 +489,9 @@ pub fn load_value_mode(doc: &Value, name: &str, mode: Mode) -> Result<Loaded, St
                 last_layer.push(Felt::from_bytes_be_slice(k));
             }
         } else if let Some(n) = t.strip_prefix("STARK/FRI/Commitment/Layer ") {
+            if !canonical_number(n) {
+                return err("bad layer number");
+            }
             let n: usize = n.parse().map_err(|_| "bad layer number")?;
             if n != fri_roots.len() + 1 {
                 return err(if mode == Mode::Hex { "FRI layer commitments out of order" } else { "inconsistent: FRI layer commitments out of order" });
@@ -482,8 +511,14 @@ pub fn load_value_mode(doc: &Value, name: &str, mode: Mode) -> Result<Loaded, St
         } else if let Some(d) = t.strip_prefix("STARK/FRI/Decommitment/Layer ") {
             // "0/Virtual Oracle/Trace k" or "<layer>"
             let table = if let Some(tr) = d.strip_prefix("0/Virtual Oracle/Trace ") {
-                tr.parse::<usize>().map_err(|_| "bad trace number")?
+                match (canonical_number(tr), tr.parse::<usize>()) {
+                    (true, Ok(k)) if k < 3 => k,
+                    _ => return err("bad trace number"),
+                }
             } else {
+                if !canonical_number(d) {
+                    return err("bad decommitment layer");
+                }
                 let l: usize = d.parse().map_err(|_| "bad decommitment layer")?;
                 if l == 0 || l >= steps.len() {
                     return err("inconsistent: decommitment for a layer the parameters do not declare");
